@@ -25,13 +25,23 @@
   Still outside the theorems (exercised by the correspondence only): `evolve` on superposition inputs; the
   composition of the per-block Fock operators into the whole enlarged circuit's distribution (each block's operator
   is now proved with spectators; their composition is C02's `pamp_mul_GQ`, not instantiated here); annotated
-  photons; detectors.
+  photons.
+  Extension 5 (model: `Model/C07Det.lean`): detectors below a loss layer — `LossSimulator._prepare_detectors_impl`
+  (the caller's list padded with `None` for the virtual modes), `get_detection_type` of the padded list,
+  `simulate_detectors` (per-mode detection kernels, tensor product, inner photon filter on the enlarged detected
+  state) followed by the marginalisation: `detectors_see_only_original_modes`, `loss_detectors_act_on_marginal`,
+  `loss_detected_distribution_mass_one`, `padded_detection_type`, `inner_detector_filter_is_redundant`,
+  `loss_detector_selection_is_conditioning` (the whole pipeline = detectors on the marginal, one conditioning),
+  `pnr_detectors_are_no_detectors`.  Model `Model/C07Mix.lean`: the noisy source TOGETHER with heralds /
+  post-selection / filter on the loss layer (`loss_noisy_selection_is_conditioning`).
 -/
 import PercevalModel.Lemmas.C07
 import PercevalModel.Lemmas.C07Mass
 import PercevalModel.Lemmas.C07SV
 import PercevalModel.Lemmas.C07Spect
 import PercevalModel.Lemmas.C07Sel
+import PercevalModel.Lemmas.C07Det
+import PercevalModel.Lemmas.C07Mix
 import PercevalModel.Props.C02
 
 open Matrix
@@ -912,5 +922,271 @@ example : Dist.mass exDist = 1 ∧ SimSpec.physPerf exSel.cond (postprocess 3 ex
 
 /-- `forwarded_filter_is_redundant`: a filter of 3 photons against a 2-photon input -/
 example : ([1, 1, 0] : List ℕ).sum < (⟨[], .tt, 3, true⟩ : Sel).minDet := by decide
+
+
+/-! ## Extension 5 — detectors together with loss channels -/
+
+/-- **detectors_see_only_original_modes**: `_prepare_detectors_impl` pads the caller's detector list with `None`
+for the virtual modes; `simulate_detectors` then runs on the ENLARGED distribution and the loss layer marginalises
+afterwards.  For every list of per-mode detection kernels on the `M` original modes (any detectors at all: rows
+need not even be normalised), every number `k` of virtual modes and every distribution over `M + k` modes, the
+result is — entry by entry, as lists — the detectors applied to the marginal distribution on the original modes:
+detection and photon loss commute, a lost photon is never detected and never alters a detection. -/
+theorem detectors_see_only_original_modes (ks : List Kern) (M k : ℕ) (hk : ks.length = M) (d : Dist.D)
+    (hd : ∀ p ∈ d, p.1.length = M + k) :
+    postprocess M (detectAll (ks ++ List.replicate k DetK.none.kern) d) = detectAll ks (postprocess M d) :=
+  postprocess_detectAll_pad ks M k hk d hd
+
+/-- the same for the code's objects: any enlarged matrix, any detector list of the caller (one entry per original
+mode), any input — the marginal of `simulate_detectors(enlarged distribution, padded list)` is the detectors applied
+to what `LossSimulator.probs` returns -/
+theorem loss_detectors_act_on_marginal {N : ℕ} (U : Matrix (Fin N) (Fin N) GQ) (M : ℕ) (hMN : M ≤ N)
+    (ds : List DetK) (hds : ds.length = M) (s : List ℕ) :
+    postprocess M (detectAll ((padDetectors M N ds).map DetK.kern) (fullDist U (prepareInput M N s))) =
+      detectMarginal ds U M s := by
+  rw [map_kern_pad]
+  unfold detectMarginal lossProbs
+  apply postprocess_detectAll_pad _ M (N - M) (by simpa using hds)
+  intro p hp
+  unfold fullDist at hp
+  obtain ⟨t, ht, rfl⟩ := List.mem_map.1 hp
+  have := ((Fock.mem_allStates_iff _ _ _).1 ht).1
+  simp only [this]
+  omega
+
+/-- **loss_detected_distribution_mass_one**: for every accepted component list with unitary components, every
+input and every detector list whose kernels are probability distributions row by row (PNR, threshold and `None`
+are: `stoch_pnr`, `stoch_thr`, `stoch_none`), the detected distribution on the original modes has total
+probability exactly one — before the marginalisation and after it. -/
+theorem loss_detected_distribution_mass_one (M N : ℕ) (items : Items GQ) (hwf : WF N M items)
+    (hu : AllUnitary items) (s : List ℕ) (hs : s.length = M) (hMN : M ≤ N) (ds : List DetK)
+    (hst : ∀ d ∈ ds, Stoch d.kern) :
+    Dist.mass (detectAll ((padDetectors M N ds).map DetK.kern)
+        (fullDist (prod N (rewrite M items)) (prepareInput M N s))) = 1 ∧
+      Dist.mass (detectMarginal ds (prod N (rewrite M items)) M s) = 1 := by
+  have hd : Dist.mass (fullDist (prod N (rewrite M items)) (prepareInput M N s)) = 1 :=
+    fullDist_mass_one _ (expanded_isUnitary N items M hwf hu) _ (prepareInput_spec M N s hs hMN).1
+  have hk : ∀ k ∈ ds.map DetK.kern, Stoch k := by
+    intro k hk
+    obtain ⟨d, hd', rfl⟩ := List.mem_map.1 hk
+    exact hst d hd'
+  refine ⟨?_, ?_⟩
+  · rw [mass_detectAll _ _ ?_, hd]
+    intro k hk'
+    rw [map_kern_pad] at hk'
+    rcases List.mem_append.1 hk' with h | h
+    · exact hk k h
+    · rw [(List.mem_replicate.1 h).2]; exact stoch_none
+  · unfold detectMarginal
+    rw [mass_detectAll _ _ hk]
+    exact loss_distribution_mass_one M N items hwf hu s hs hMN
+
+/-- **padded_detection_type**: below a loss layer (at least one virtual mode) `get_detection_type` of the padded
+list is PNR or Mixed, never Threshold or PPNR — whatever the caller's detectors, `simulate_detectors` takes either
+the unchanged-distribution exit or its general per-mode branch, and in the PNR case hands the distribution back
+untouched (no filter applied). -/
+theorem padded_detection_type (M N : ℕ) (hMN : M < N) (ds : List DetK) :
+    (detType (padDetectors M N ds) = .pnr ∨ detType (padDetectors M N ds) = .mixed) ∧
+      ∀ (f : ℕ) (d : Dist.D), detType (padDetectors M N ds) = .pnr →
+        simDetectors (padDetectors M N ds) f d = (d, 1) := by
+  refine ⟨?_, ?_⟩
+  · unfold padDetectors
+    obtain ⟨k, hk⟩ : ∃ k, N - M = k + 1 := ⟨N - M - 1, by omega⟩
+    rw [hk]
+    exact detType_pad ds k
+  · intro f d h
+    simp [simDetectors, h]
+
+/-- **inner_detector_filter_is_redundant**: `simulate_detectors` inside the inner simulator filters on the photon
+number of the ENLARGED detected state (lost photons included) with the caller's value `minDet`; the loss layer
+filters again on the original modes with `minDet + Σ heralds`.  For every distribution `x` over the enlarged
+modes, what the outer filter keeps of the marginal is the same with or without the inner filter: the inner filter
+never removes an outcome the outer one accepts. -/
+theorem inner_detector_filter_is_redundant (σ : Sel) (M : ℕ) (x : Dist.D) :
+    Dist.restrict (fun t => decide (σ.filter ≤ t.sum))
+        (postprocess M (Dist.restrict (fun t => decide (σ.minDet ≤ t.sum)) x)) =
+      Dist.restrict (fun t => decide (σ.filter ≤ t.sum)) (postprocess M x) := by
+  rw [restrict_postprocess, restrict_postprocess,
+    restrict_outer_inner M σ.minDet σ.filter (by unfold Sel.filter; omega) x]
+
+/-- **loss_detector_selection_is_conditioning**: the whole pipeline of `LossSimulator.probs_svd(input, detectors)`
+as the code runs it — detector list padded with `None`, `simulate_detectors` on the ENLARGED distribution with the
+inner photon filter counting lost photons too, its normalisation, the inner `post_select_distribution`
+(a further normalisation), marginalisation, outer photon filter (herald photons added) with its normalisation,
+heralds and post-selection with theirs — against the property's reading: detectors look at the ORIGINAL modes of the
+marginal distribution of the enlarged lossless circuit, then ONE conditioning.  For every enlarged matrix with a
+normalised distribution, every selection, every detector list (one entry per original mode, rows non-negative and
+summing to one) that is not all-PNR, every input the forwarded filter lets through: when something passes the
+photon filter, `physical_perf` and `logical_perf` are the specification's, and when something is retained the
+reported distribution is the conditioned detected marginal. -/
+theorem loss_detector_selection_is_conditioning {N : ℕ} (σ : Sel) (ds : List DetK)
+    (U : Matrix (Fin N) (Fin N) GQ) (M : ℕ) (hMN : M ≤ N) (hds : ds.length = M) (s : List ℕ)
+    (hs : σ.minDet ≤ s.sum) (hst : ∀ d ∈ ds, Stoch d.kern)
+    (hnn : ∀ d ∈ ds, ∀ n, ∀ e ∈ d.kern n, (0 : ℚ) ≤ e.2)
+    (hmix : detType (padDetectors M N ds) ≠ .pnr)
+    (hd : Dist.mass (fullDist U (prepareInput M N s)) = 1)
+    (hp : SimSpec.physPerf σ.cond (detectMarginal ds U M s) ≠ 0) :
+    (Dist.mass (SimSpec.retained σ.cond (detectMarginal ds U M s)) ≠ 0 →
+        (lossDetSvd σ ds U M s).1 = SimSpec.conditioned σ.cond (detectMarginal ds U M s)) ∧
+      (lossDetSvd σ ds U M s).2.1 = SimSpec.logicalPerf σ.cond (detectMarginal ds U M s) ∧
+      (lossDetSvd σ ds U M s).2.2 = SimSpec.physPerf σ.cond (detectMarginal ds U M s) := by
+  have hpx := loss_detectors_act_on_marginal U M hMN ds hds s
+  have hkst : ∀ k ∈ (padDetectors M N ds).map DetK.kern, Stoch k := by
+    intro k hk
+    rw [map_kern_pad] at hk
+    rcases List.mem_append.1 hk with h | h
+    · obtain ⟨d, hd', rfl⟩ := List.mem_map.1 h
+      exact hst d hd'
+    · rw [(List.mem_replicate.1 h).2]; exact stoch_none
+  have hknn : ∀ k ∈ (padDetectors M N ds).map DetK.kern, ∀ n, ∀ e ∈ k n, (0 : ℚ) ≤ e.2 := by
+    intro k hk
+    rw [map_kern_pad] at hk
+    rcases List.mem_append.1 hk with h | h
+    · obtain ⟨d, hd', rfl⟩ := List.mem_map.1 h
+      exact hnn d hd'
+    · rw [(List.mem_replicate.1 h).2]
+      intro n e he
+      simp only [DetK.kern, List.mem_singleton] at he
+      rw [he]; norm_num
+  have hmx := mass_detectAll _ (fullDist U (prepareInput M N s)) hkst
+  rw [hd] at hmx
+  have hnx := nonneg_detectAll _ _ hknn (nonneg_fullDist U (prepareInput M N s))
+  have hne : (fullDist U (prepareInput M N s)).isEmpty = false := by
+    cases h : fullDist U (prepareInput M N s) with
+    | nil => rw [h] at hd; simp at hd
+    | cons a b => rfl
+  have hmain := simDet_post_spec σ M _ hmx hnx (by rw [hpx]; exact hp)
+  simp only [hpx] at hmain
+  unfold lossDetSvd
+  rw [if_neg (not_lt.2 hs)]
+  unfold simDetectors
+  simp only [hne, hmix, decide_false, Bool.or_self, Bool.false_eq_true, ↓reduceIte]
+  exact hmain
+
+/-- **pnr_detectors_are_no_detectors**: when the padded list is PNR (every entry `None` or a PNR detector),
+`simulate_detectors` hands the distribution back and the run is exactly the detector-free run, to which
+`loss_selection_is_conditioning` applies -/
+theorem pnr_detectors_are_no_detectors {N : ℕ} (σ : Sel) (ds : List DetK) (U : Matrix (Fin N) (Fin N) GQ)
+    (M : ℕ) (s : List ℕ) (hpnr : detType (padDetectors M N ds) = .pnr)
+    (hd : Dist.mass (fullDist U (prepareInput M N s)) = 1) :
+    lossDetSvd σ ds U M s = lossSvdSel σ U M s := by
+  unfold lossDetSvd lossSvdSel
+  by_cases h : s.sum < σ.minDet
+  · rw [if_pos h, if_pos h]
+  · rw [if_neg h, if_neg h]
+    simp only [simDetectors, hpnr, decide_true, Bool.or_true, ↓reduceIte,
+      Dist.normalize_of_mass_one _ hd, one_mul]
+
+
+/-- non-vacuity: a two-wire partially resolving detector's rows (`detect(2)` = one click 1/2, two clicks 1/2;
+`detect(3)` = 1/4, 3/4) are stochastic; a detector list `[threshold, PPNR]` on 2 original modes below one virtual
+mode is Mixed; on the enlarged distribution `{|2,1,0⟩: 1/2, |0,2,1⟩: 1/2}` the detected marginal is computed -/
+def exPpnr : DetK := .ppnr [[], [], [(1, 1/2), (2, 1/2)], [(1, 1/4), (2, 3/4)]]
+
+example : (∀ n, n ≤ 3 → ((exPpnr.kern n).map (·.2)).sum = 1) ∧
+    detType (padDetectors 2 3 [.thr, exPpnr]) = .mixed ∧
+    postprocess 2 (detectAll ((padDetectors 2 3 [.thr, exPpnr]).map DetK.kern)
+      [([2, 1, 0], 1/2), ([0, 2, 1], 1/2)]) =
+      [([1, 1], 1/2), ([0, 1], 1/4), ([0, 2], 1/4)] := by
+  refine ⟨?_, by decide, ?_⟩
+  · intro n hn
+    have h4 : n = 0 ∨ n = 1 ∨ n = 2 ∨ n = 3 := by omega
+    rcases h4 with rfl | rfl | rfl | rfl <;> simp [exPpnr, DetK.kern] <;> norm_num
+  · simp [padDetectors, exPpnr, DetK.kern, detectAll, detState, Dist.scale, postprocess, Dist.mapKeys]
+    norm_num
+
+
+
+/-- non-vacuity of `loss_detected_distribution_mass_one` / `loss_detector_selection_is_conditioning`: the detector
+list `[threshold, exPpnr]` meets the kernel hypotheses (rows non-negative, summing to one, for EVERY photon number)
+and is not all-PNR once padded; `exDist` (normalised, non-negative) with `exSel` passes the photon filter -/
+example : (∀ d ∈ [DetK.thr, exPpnr], Stoch d.kern) ∧
+    (∀ d ∈ [DetK.thr, exPpnr], ∀ n, ∀ e ∈ d.kern n, (0 : ℚ) ≤ e.2) ∧
+    detType (padDetectors 2 3 [.thr, exPpnr]) ≠ .pnr ∧ Nonneg exDist := by
+  have hrow : ∀ n, exPpnr.kern n = [(n, 1)] ∨ exPpnr.kern n = [(1, 1/2), (2, 1/2)] ∨
+      exPpnr.kern n = [(1, 1/4), (2, 3/4)] := by
+    intro n
+    rcases n with _ | _ | _ | _ | n <;> simp [exPpnr, DetK.kern]
+  refine ⟨?_, ?_, by decide, ?_⟩
+  · intro d hd
+    simp only [List.mem_cons, List.not_mem_nil, or_false] at hd
+    rcases hd with rfl | rfl
+    · exact stoch_thr
+    · intro n
+      rcases hrow n with h | h | h <;> rw [h] <;> norm_num
+  · intro d hd n e he
+    simp only [List.mem_cons, List.not_mem_nil, or_false] at hd
+    rcases hd with rfl | rfl
+    · simp only [DetK.kern, List.mem_singleton] at he
+      rw [he]; norm_num
+    · rcases hrow n with h | h | h <;> rw [h] at he <;>
+        simp only [List.mem_cons, List.not_mem_nil, or_false] at he <;>
+        rcases he with rfl | rfl <;> norm_num
+  · intro p hp
+    simp only [exDist, List.mem_cons, List.not_mem_nil, or_false] at hp
+    rcases hp with rfl | rfl <;> norm_num
+
+
+
+/-! ## Extension 5 — the noisy source together with heralds / post-selection on top of the loss layer -/
+
+/-- **loss_noisy_selection_is_conditioning**: `LossSimulator.probs_svd(source distribution)` with a selection, as
+the code runs it: the inner simulator drops every input of the source distribution with fewer photons than the
+forwarded filter (the test is on the INPUT of the enlarged circuit, lost photons included), reports the dropped
+weight as `physical_perf`, mixes the enlarged distributions of the other inputs, normalises and divides its
+`_logical_perf` by its `physical_perf`; the loss layer marginalises, filters on the original modes with the herald
+photons added, applies heralds and post-selection, normalising after each step, and multiplies the performances in.
+For every enlarged matrix, every source distribution of Fock inputs with non-negative weights summing to one whose
+members give normalised enlarged distributions (a theorem for unitary components), and every selection
+(heralds, post-selection expression, filter, `keep_heralds`): whenever something passes the photon filter, the
+reported `physical_perf` and `logical_perf` are the specification's for the MIXTURE of the marginal distributions on
+the original modes, and when something is retained the reported distribution is that mixture conditioned once. -/
+theorem loss_noisy_selection_is_conditioning {N : ℕ} (σ : Sel) (U : Matrix (Fin N) (Fin N) GQ) (M : ℕ)
+    (src : List (ℚ × List ℕ)) (hw : (src.map (·.1)).sum = 1) (hnn : ∀ ws ∈ src, (0 : ℚ) ≤ ws.1)
+    (hd : ∀ ws ∈ src, Dist.mass (fullDist U (prepareInput M N ws.2)) = 1)
+    (hp : SimSpec.physPerf σ.cond (lossProbsMix U M src) ≠ 0) :
+    (Dist.mass (SimSpec.retained σ.cond (lossProbsMix U M src)) ≠ 0 →
+        (lossMixSvdSel σ U M src).1 = SimSpec.conditioned σ.cond (lossProbsMix U M src)) ∧
+      (lossMixSvdSel σ U M src).2.1 = SimSpec.logicalPerf σ.cond (lossProbsMix U M src) ∧
+      (lossMixSvdSel σ U M src).2.2 = SimSpec.physPerf σ.cond (lossProbsMix U M src) := by
+  have hkn : ∀ ws ∈ src.filter (passes σ), (0 : ℚ) ≤ ws.1 := fun ws h => hnn ws (List.mem_filter.1 h).1
+  have hkd : ∀ ws ∈ src.filter (passes σ), Dist.mass (fullDist U (prepareInput M N ws.2)) = 1 :=
+    fun ws h => hd ws (List.mem_filter.1 h).1
+  have hny := nonneg_enlargedMix U M _ hkn
+  have hmain := inner_drop_post_spec σ M (enlargedMix U M src) (enlargedMix U M (src.filter (passes σ))) hny
+    (restrict_physOk_kept σ U M src) (by rw [postprocess_enlargedMix]; exact hp)
+  simp only [postprocess_enlargedMix] at hmain
+  obtain ⟨hW, h1, h2, h3⟩ := hmain
+  have hmy := mass_enlargedMix U M _ hkd
+  have hsplit := sum_filter_split (passes σ) src
+  rw [hw] at hsplit
+  have hne : (enlargedMix U M (src.filter (passes σ))).isEmpty = false := by
+    cases h : enlargedMix U M (src.filter (passes σ)) with
+    | nil => rw [h] at hW; simp at hW
+    | cons a b => rfl
+  have hnorm : Dist.normalize (Dist.normalize (enlargedMix U M (src.filter (passes σ)))) =
+      Dist.normalize (enlargedMix U M (src.filter (passes σ))) :=
+    Dist.normalize_of_mass_one _ (Dist.mass_normalize _ hW)
+  rw [hnorm] at h1 h2 h3
+  have hwy : 1 - ((src.filter fun ws => !passes σ ws).map (·.1)).sum =
+      Dist.mass (enlargedMix U M (src.filter (passes σ))) := by rw [hmy]; linarith
+  have hpos : 0 < Dist.mass (enlargedMix U M (src.filter (passes σ))) :=
+    lt_of_le_of_ne (mass_nonneg _ hny) (Ne.symm hW)
+  unfold lossMixSvdSel
+  simp only [hne, Bool.false_eq_true, ↓reduceIte, hwy, ← hmy, hpos, and_self, div_self hW, one_mul]
+  exact ⟨h1, h2, h3⟩
+
+/-- non-vacuity: a source distribution with non-negative weights summing to one (the model's own emission model),
+and the enlarged distributions of an accepted program are normalised (`fullDist_mass_one`) -/
+example : ((sourceDist (3/4) [1, 1, 0]).map (·.1)).sum = 1 ∧
+    (∀ ws ∈ sourceDist (3/4) [1, 1, 0],
+      Dist.mass (fullDist (prod 6 (rewrite 3 exItems)) (prepareInput 3 6 ws.2)) = 1) := by
+  refine ⟨sourceDist_mass_one _ _, ?_⟩
+  intro ws hws
+  refine fullDist_mass_one _ (expanded_isUnitary 6 exItems 3 (by simp [exItems, WF]) ?_) _
+    (prepareInput_spec 3 6 ws.2 (sourceDist_length _ _ ws hws) (by omega)).1
+  simp only [exItems, AllUnitary, and_true]
+  refine ⟨?_, ?_, ?_, ?_⟩ <;> unfold IsUnitary <;> decide +kernel
+
 
 end PM.C07
